@@ -28,10 +28,16 @@ EXHAUSTIVE = {"quick": False, "thorough": False}
 IDENT_POOL = ["AB", "ABC", "B", " A", "", "A", "BC", "X1", "ab", "A B", "--", "Z"]
 
 
+def text_linesize(case):
+    """`linesize` is forwarded through *args down to the reader; in text storage it is a legal no-op
+    (the textual adapter reads whole lines whatever it is)"""
+    return (case["linesize"],) if case.get("linesize") else ()
+
+
 def run_impl(case):
     try:
         RF, classes = fsup.mk_register_file(case["regs"], io=case.get("io"))
-        f = fsup.read_text(RF, codec.dec_str(case["content"]), case.get("io"))
+        f = fsup.read_text(RF, codec.dec_str(case["content"]), case.get("io"), *text_linesize(case))
         cap = len(case["content"]) + 5
         return {"elems": [fsup.enc_relem(e, classes) for e in fsup.capped(f.data, cap)]}
     except Exception as e:
@@ -211,6 +217,8 @@ def random_case(rng):
     else:
         io = fsup.io_of(rng, [content])
     case = {"regs": regs, "content": codec.enc_str(content)}
+    if rng.random() < 0.3:
+        case["linesize"] = rng.choice([2, 3, 16, 80])
     if io:
         case["io"] = io  # the content is read from a path on disk, in the class's declared encoding
     return case
